@@ -290,6 +290,12 @@ def _call(m: AccfgMachine, op, vals, core):
     tag = _tag(op)
     k = core.occurrence(("call", tag))
     m.hist.append(("call", tag, k))
+    callee = m.funcs.get(op.callee.string_value()) if isinstance(op, func.CallOp) else None
+    if callee is not None and callee.body.blocks:
+        # a function defined in this module: what it does to the accelerators is what its body does
+        m.probe("local-call")
+        yield from m.run_function(op.callee.string_value(), [m.get(vals, a) for a in op.arguments], core)
+        return
     if contract_effects(op):
         m.clobber(tag, k)
     for r in op.results:
